@@ -34,7 +34,7 @@ Inductive sat_slit (P N : interp) (e : env) : slit -> Prop :=
 | SatCmp c a b va vb : den e a va -> den e b vb -> eval_cmp c va vb = Ok true ->
                        sat_slit P N e (SCmp c a b).
 
-(** * Variables of terms and literals (syntax) *)
+(** * Syntax: the vars of terms and literals *)
 Fixpoint term_vars (t : term) : list nat :=
   match t with
   | TVar x => [x]
